@@ -86,7 +86,9 @@ PROPS = {
                  'path or (bidirectional) on the reverse path, each evaluated on a deep copy; receiver figures: _calc_snr '
                  'definitions, inverse-sum identity, update_snr adds every contribution once on the RAW figures and never '
                  'writes raw_* or osnr_nli; the impairments the penalty tables are looked up with are those the path accumulated '
-                 '(Transceiver._calc_cd / _calc_pmd / _calc_pdl, in the units of the tables).',
+                 '(Transceiver._calc_cd / _calc_pmd / _calc_pdl, in the units of the tables); the reverse path of a bidirectional request '
+                 '(find_reversed_path) is proved, on paths over one and two OMS, to run from the destination to the source over the paired '
+                 'OMS in reverse order of crossing with the shared ROADM once, and to refuse a line without opposite direction.',
         'level_note': 'propagate() is a call-site summary in the verdict contract (its loop is proved per element in C02); '
                       'update_snr proved for up to three contributions; the automatic mode search loop '
                       '(propagate_and_optimize_mode: ordering by baud rate then bit rate, blocking reasons) is not under contract '
@@ -95,7 +97,8 @@ PROPS = {
                       'saturating mode explored first - known finding F58); penalty tables / out-of-table blocking / successive-mode histories, '
                       'the planner\'s fixed-mode verdict with penalty tables end to end, and which add / drop impairment set a '
                       'crossing counts, are bounded stand-ins',
-        'trusted': NUMPY_TRUST + ['numpy.argmin (an index attaining the minimum)', 'propagate call-site summary'],
+        'trusted': NUMPY_TRUST + ['numpy.argmin (an index attaining the minimum)', 'propagate call-site summary',
+                                  'find_reversed_path is a ghost at its call site in the verdict contract (the function itself is proved on two path shapes)'],
         'extra': [{'name': 'penalties', 'kind': 'bounded', 'script': 'bounded/penalties.py'},
                   {'name': 'mode_search', 'kind': 'bounded', 'script': 'bounded/mode_search.py', 'timeout': 2400},
                   # which add / drop impairment set (and so which add/drop OSNR) a crossing counts
@@ -376,7 +379,7 @@ PROPS = {
                       'symbolic cell is not modelled); .xls files are only read from the shipped examples (no writer installed); '
                       'bounded: 7 topologies x 5 Links variants x 6 Eqpt/Roadms variants, 18 malformed workbooks, 12+ service rows, FUSED sites of '
                       'wrong degree, route lists through amplifier sites declared fused',
-        'trusted': ['xls_utils.correct_cell_int_to_str (assumed identity on text cells)', 'str.split on constant texts',
+        'trusted': ['xls_utils.correct_cell_int_to_str on numeric cells (text and empty cells are proved)', 'str.split on constant texts',
                     'openpyxl / xlrd readers (used as they are by the bounded stand-in)'],
         'extra': [{'name': 'workbook', 'kind': 'bounded', 'script': 'bounded/workbook.py', 'timeout': 2400}],
     },
